@@ -9,6 +9,7 @@ import sys
 HERE = os.path.dirname(os.path.abspath(__file__))
 VERIF = os.path.dirname(HERE)
 SPDRIVER = os.path.join(VERIF, 'lean', '.lake', 'build', 'bin', 'spdriver')
+SCENARIO_TIMEOUT_S = 12
 
 sys.path.insert(0, HERE)
 import scen  # noqa: E402
@@ -20,9 +21,24 @@ def _impl_worker(args):
     import implx
     cls = getattr(implx, runner_name)
     res = []
+    import signal
+
+    class _Timeout(BaseException):
+        pass
+
+    def _alarm(signum, frame):
+        raise _Timeout()
+    signal.signal(signal.SIGALRM, _alarm)
     for t in texts:
         try:
-            res.append(impl.run_text(t, cls))
+            signal.setitimer(signal.ITIMER_REAL, SCENARIO_TIMEOUT_S)
+            try:
+                res.append(impl.run_text(t, cls))
+            finally:
+                signal.setitimer(signal.ITIMER_REAL, 0)
+        except _Timeout:
+            # the implementation did not return (e.g. an endless loop inside one event)
+            res.append([t.splitlines()[0] if t else 'scenario ?', 'abort Timeout'])
         except BaseException as e:  # harness failure: reported, never silently dropped
             res.append([f'harness-error {type(e).__name__} {e}'])
     return res
